@@ -21,7 +21,10 @@ for d in sorted(os.listdir(os.path.join(V, 'seeded'))):
         elif l.startswith('UNDECIDED'):
             by.append(l[:110])
     rows.append('| %s | %s | %s | %s | %s |' % (d, m['property'], m['change'].replace('|', '/')[:150], verdict, '; '.join(by[:2]) or '-'))
-table = '| seed | property | change | verdict of `./check` | obligations that caught it |\n|---|---|---|---|---|\n' + '\n'.join(rows)
+import collections
+tally = collections.Counter(r.split('|')[4].strip().split(' ')[0] for r in rows)
+totals = '%d seeded changes: %s.\n\n' % (len(rows), ', '.join('%d %s' % (n, k) for k, n in sorted(tally.items())))
+table = totals + '| seed | property | change | verdict of `./check` | obligations that caught it |\n|---|---|---|---|---|\n' + '\n'.join(rows)
 p = os.path.join(V, 'DESIGN.md')
 s = open(p).read()
 if '<!-- SEEDS:BEGIN -->' in s:
